@@ -488,6 +488,8 @@ class Interp:
             return []
         out = []
         for b in cls.node.bases:
+            if self._is_typing_generic(b):
+                continue  # typing.Generic[T]: only typing machinery (__class_getitem__), no attributes the code can reach
             try:
                 st = St()
                 st.frames.append(Frame({}, None, cls.module))
@@ -500,6 +502,94 @@ class Interp:
             else:
                 out.append(BuiltinClass("<unresolved-base>"))
         return out
+
+    @staticmethod
+    def _is_typing_generic(b):
+        if not isinstance(b, ast.Subscript):
+            return False
+        v = b.value
+        return (isinstance(v, ast.Attribute) and v.attr == "Generic" and isinstance(v.value, ast.Name) and v.value.id == "typing") or (
+            isinstance(v, ast.Name) and v.id == "Generic"
+        )
+
+    def dataclass_fields(self, cls):
+        """None if cls is not a plain `@dataclass` class; else [(name, default-expr | None, kind)] in declaration order.
+        Only the plain decorator (no arguments), no dataclass bases, no ClassVar/InitVar, no __post_init__."""
+        if not isinstance(cls, ClassVal):
+            return None
+        decs = cls.node.decorator_list
+        isdc = [
+            (isinstance(d, ast.Attribute) and d.attr == "dataclass" and isinstance(d.value, ast.Name) and d.value.id == "dataclasses")
+            or (isinstance(d, ast.Name) and d.id == "dataclass")
+            for d in decs
+        ]
+        if not any(isdc):
+            if any(isinstance(d, ast.Call) and "dataclass" in ast.unparse(d.func) for d in decs):
+                raise Unsupported("@dataclass(...) with arguments")
+            return None
+        if len(decs) != 1:
+            raise Unsupported("dataclass with further decorators")
+        if any(isinstance(c, ClassVal) for c in self.mro(cls)[1:]):
+            raise Unsupported("dataclass with user-defined base classes")
+        fields = []
+        for n in cls.node.body:
+            if isinstance(n, ast.FunctionDef) and n.name in ("__post_init__", "__init__"):
+                raise Unsupported("dataclass with __post_init__ / explicit __init__")
+            if not (isinstance(n, ast.AnnAssign) and isinstance(n.target, ast.Name)):
+                continue
+            ann = ast.unparse(n.annotation)
+            if "ClassVar" in ann or "InitVar" in ann:
+                raise Unsupported("dataclass ClassVar / InitVar")
+            v = n.value
+            kind = "value"
+            if isinstance(v, ast.Call) and ast.unparse(v.func) in ("dataclasses.field", "field"):
+                if v.args or len(v.keywords) != 1 or v.keywords[0].arg not in ("default", "default_factory"):
+                    raise Unsupported("dataclasses.field(...) other than default= / default_factory=")
+                kind = "value" if v.keywords[0].arg == "default" else "factory"
+                v = v.keywords[0].value
+            fields.append((n.target.id, v, kind))
+        return fields
+
+    def instantiate_dataclass(self, cls, fields, obj, args, kwargs, st):
+        """the __init__ that @dataclass generates: positional / keyword arguments in field order, then defaults"""
+        if len(args) > len(fields):
+            yield st, Exc(ExcVal(BuiltinClass("TypeError", TypeError), ("too many positional arguments",)))
+            return
+        kwargs = dict(kwargs)
+        vals = {}
+        for i, (name, dflt, kind) in enumerate(fields):
+            if i < len(args):
+                if name in kwargs:
+                    yield st, Exc(ExcVal(BuiltinClass("TypeError", TypeError), ("multiple values for " + name,)))
+                    return
+                vals[name] = args[i]
+            elif name in kwargs:
+                vals[name] = kwargs.pop(name)
+            elif dflt is None:
+                yield st, Exc(ExcVal(BuiltinClass("TypeError", TypeError), ("missing argument " + name,)))
+                return
+            else:
+                st0 = St()
+                st0.nid = st.nid
+                st0.frames.append(Frame({}, None, cls.module))
+                outs = list(self.ev(dflt, st0))
+                if len(outs) != 1 or isinstance(outs[0][1], Exc) or isinstance(outs[0][1], Ref):
+                    raise Unsupported("dataclass field default")
+                v = outs[0][1]
+                if kind == "factory":
+                    outs = list(self.call(v, [], {}, st))
+                    if len(outs) != 1 or isinstance(outs[0][1], Exc) or outs[0][0] is not st:
+                        raise Unsupported("dataclass default_factory")
+                    v = outs[0][1]
+                vals[name] = v
+        if kwargs:
+            yield st, Exc(ExcVal(BuiltinClass("TypeError", TypeError), ("unexpected keyword %s" % list(kwargs),)))
+            return
+        st.get(obj).attrs.update(vals)
+        if not hasattr(self, "_dataclass_refs"):
+            self._dataclass_refs = set()
+        self._dataclass_refs.add(obj.id)
+        yield st, obj
 
     def mro(self, cls):
         k = ("mro", id(getattr(cls, "node", None)) if isinstance(cls, ClassVal) else cls.name)
@@ -540,6 +630,9 @@ class Interp:
 
     def class_lookup(self, cls, name, start_after=None):
         """-> (value, defining class) or (None, None)"""
+        if name in ("__eq__", "__ne__", "__hash__", "__repr__", "__str__", "__lt__", "__le__", "__gt__", "__ge__") and isinstance(cls, ClassVal):
+            if self.dataclass_fields(cls) is not None and name not in self.class_members(cls):
+                raise Unsupported("method %s generated by @dataclass" % name)
         seen_start = start_after is None
         for c in self.mro(cls):
             if not seen_start:
@@ -708,6 +801,8 @@ class Interp:
     def hashable(self, k):
         if is_z3(k) or isinstance(k, Ref):
             if isinstance(k, Ref):
+                if k.id in getattr(self, "_dataclass_refs", ()):
+                    raise Unsupported("dataclass instance as dictionary / set key (generated __eq__ / __hash__)")
                 return k  # identity-hashed object
             raise Unsupported("symbolic dictionary/set key")
         if isinstance(k, tuple):
@@ -942,7 +1037,7 @@ class Interp:
                 return False
             if e.kind != f.kind:
                 return False
-            if e.kind in ("list", "deque", "set"):
+            if e.kind in ("list", "deque", "set", "numset"):
                 if len(e.items) != len(f.items) or any(x is not y for x, y in zip(e.items, f.items)):
                     return False
             elif e.kind == "dict":
@@ -989,15 +1084,44 @@ class Interp:
         # a < b <= c : evaluate operands left to right; all operands here are evaluated eagerly
         # (python would short-circuit; operands with side effects in chains are outside the subset).
         operands = [node.left] + list(node.comparators)
-        if len(operands) > 2:
-            for o in operands[1:]:
-                if not self._pure_expr(o):
-                    raise Unsupported("comparison chain with impure operand")
+        if len(operands) > 2 and not all(self._pure_expr(o) for o in operands[1:]):
+            yield from self._compare_chain_lazy(st, node.ops, operands)
+            return
         for st1, vs in self.ev_many(operands, st):
             if isinstance(vs, Exc):
                 yield st1, vs
                 continue
             yield from self._compare_chain(st1, node.ops, vs)
+
+    def _compare_chain_lazy(self, st, ops, operands):
+        """a op1 b op2 c ... with operands that may call functions: Python's own order - each operand is evaluated once,
+        and only if all comparisons before it were true (a symbolic comparison result forks the path)."""
+
+        def rec(st, k, left):
+            # left = value of operand k; compare it with operand k+1
+            for st1, right in list(self.ev(operands[k + 1], st)):
+                if isinstance(right, Exc):
+                    yield st1, right
+                    continue
+                for st2, r in self.models.compare(self, st1, type(ops[k]).__name__, left, right):
+                    if isinstance(r, Exc):
+                        yield st2, r
+                        continue
+                    t = self.truth(r, st2)
+                    if k + 1 == len(ops):
+                        yield st2, t
+                        continue
+                    for st3, b in self.branch(st2, t):
+                        if b:
+                            yield from rec(st3, k + 1, right)
+                        else:
+                            yield st3, False
+
+        for st0, first in list(self.ev(operands[0], st)):
+            if isinstance(first, Exc):
+                yield st0, first
+            else:
+                yield from rec(st0, 0, first)
 
     def _pure_expr(self, node):
         for n in ast.walk(node):
@@ -1304,6 +1428,10 @@ class Interp:
         if self.is_subclass(cls, BuiltinClass("list", list)):
             # class deriving from the builtin list (e.g. BlockCollection): list payload + the class's own methods
             st.get(obj).attrs["__list__"] = st.alloc(ListE([]))
+        dcf = self.dataclass_fields(cls)
+        if dcf is not None:
+            yield from self.instantiate_dataclass(cls, dcf, obj, list(args), kwargs, st)
+            return
         init, where = self.class_lookup(cls, "__init__")
         if init is None and "__list__" in st.get(obj).attrs and not kwargs and len(args) <= 1:
             if args:
@@ -1463,7 +1591,7 @@ class Interp:
             return len(v.items) > 0
         if isinstance(v, Ref):
             e = st.get(v)
-            if e.kind in ("list", "deque", "set", "dict"):
+            if e.kind in ("list", "deque", "set", "dict", "numset"):
                 return len(e.items) > 0
             if e.kind == "symlist":
                 return e.length != 0
